@@ -183,8 +183,24 @@ def rule_b(prog, rep):
         return None
     paths = Tracer(crate, classify).run_fn(s)
     oks = {tuple(base(x) for x in t if '@' not in x) for (ex, t, v) in ok_exits(paths)}
-    if oks == {(), ('set',), ('del',), ('set', 'del')}:
-        rep.ok('C16.b', 'send_current_state', s.loc, 'sends the set batch if non-empty, then the deleted batch if non-empty')
+    # each send sits exactly on the "its own buffer is not empty" edge (an empty buffer is skipped, a filled one is never skipped)
+    sb_ = Bindings(crate, s)
+    cond_ok = True
+    for callee_, fld in ((f'{AGG}::send_set_event', 'set_buffer'), (f'{AGG}::send_deleted_event', 'deleted_buffer')):
+        for nd, anc in crate.walk_fn(s):
+            if nd.get('k') == 'call' and callee(nd) == callee_:
+                g = [it for it in guards(anc + (nd,)) if it[0] == 'if']
+                good_g = False
+                if len(g) == 1:
+                    c, pol = strip_not(g[0][1])
+                    if c.get('k') == 'call' and short(callee(c)) == 'is_empty' and sb_.origins(c['args'][0]) == {f'param(self).{fld}'}:
+                        # executes when is_empty() == (branch == pol) ... we need "not empty"
+                        good_g = (g[0][2] == pol) is False
+                cond_ok = cond_ok and good_g
+    if oks == {(), ('set',), ('del',), ('set', 'del')} and cond_ok:
+        rep.ok('C16.b', 'send_current_state', s.loc, 'sends the set batch iff set_buffer is non-empty, then the deleted batch iff deleted_buffer is non-empty')
+    elif not cond_ok:
+        rep.violation('C16.b', 'send_current_state', s.loc, 'a batch is not sent exactly when its own buffer is non-empty', key='C16.b/send_current_state/condition')
     else:
         rep.violation('C16.b', 'send_current_state', s.loc, f'flush sequences {sorted(oks)}', key='C16.b/send_current_state')
     p = crate.fn(f'{AGG}::send_aggregated_pstate')
